@@ -207,6 +207,11 @@ for _tag, _cond, _tm, _tn in (('closed-form', _A_AV_N, _TM_AV, _T_AV_N), ('close
                   f"sum_range(lambda q: {_tn}, 0, len(util))))")
 
 
+_STEP_ONE_B = (f"c05c_cut('step5b:generating-terms-vanish-without-nests-or-with-unit-nest-parameters', lambda: implies({_ALL_ONE}, "
+               f"forall(lambda q: c05c_val(log_gi[{_KU}]) == 0, 0, len(util)) and "
+               f"implies({_CHN} in util, c05c_val(log_gi[{_CHN}]) == 0)))")
+
+
 def _reduces(wrap: bool) -> dict:
     pre, post = ("app('numpy.exp', ", ')') if wrap else ('', '')
     return {
@@ -222,6 +227,7 @@ for fn, wrap in (('lognested', False), ('nested', True)):
              types={'util': 'dict[int, Expression]', 'availability': 'dict[int, Expression] | None', 'nests': 'NestsForNestedLogit'},
              requires=_REQ_L, modifies=[], may_raise=['BiogemeError'],
              raises={'TypeError': N._NOT_OPERAND.format('choice')},
-             hints=_STEPS + [_STEP_ONE] + _AGREE,
-             ensures={**_closed_form(wrap), **_reduces(wrap)},
+             # the reduction to logit is stated on the log version (the probability version is exp of it: closed form below)
+             hints=(_STEPS + [_STEP_ONE, _STEP_ONE_B] + _AGREE) if not wrap else (_STEPS + _AGREE[:4]),
+             ensures={**_closed_form(wrap), **(_reduces(wrap) if not wrap else {})},
              min_obligations=4, replay=_REPLAY_NESTED)
